@@ -1,18 +1,78 @@
 import TextxVerif.Tx.Json
-/-! Driver for the textX mirror (`Tx.compile`, later `Tx.build`, `Tx.Sem`).
-{"op":"compile","gram":{"rules":[…]}} → {"ok":{nodes,top,comments,classes,multSensitive}} | {"error":cls,…}
+import TextxVerif.Tx.Build
+/-! Driver for the textX mirror.
+{"op":"compile","gram":G} → {"ok":{nodes,top,comments,classes,multSensitive}} | {"error":cls,…}
+{"op":"case","gram":G,"cfg":C,"texts":[{"input":s,"toks":[[len|-1]],"groups":[n],"g1":[[null|[start,len]]],"fuel":n}]}
+  → {"compiled":<as compile>, "loads":[Outcome]}      (loads only when the grammar compiles)
+Outcome: {"ok":V,"c03":b} | {"err":"syntax"|"semantic:Multiple assignments"|"semantic:None"|"fuel"} | {"bad":what}
+V: {"p":"none"} | {"p":"bool","v":b} | {"p":"int","v":i} | {"p":"str","v":s} | {"p":"float","src":s}
+ | {"cls":c,"id":n,"parent":n|null,"attrs":[[name,V]]} | [V]
 -/
 open Lean Wire Tx
+
+def parseRow (j : Json) : Option (Array (Option Nat)) := do
+  let a ← asArr? j
+  a.mapM fun e => match (fromJson? e : Except String Int) with
+    | .ok i => some (if i < 0 then none else some i.toNat)
+    | .error _ => none
+
+def parseSpanRow (j : Json) : Option (Array (Option (Nat × Nat))) := do
+  let a ← asArr? j
+  a.mapM fun e => match e with
+    | Json.null => some none
+    | e => match asNatList? e with
+      | some [s, l] => some (some (s, l))
+      | _ => none
+
+partial def valueToJson : Value → Json
+  | .prim .none => Json.mkObj [("p", "none")]
+  | .prim (.bool b) => Json.mkObj [("p", "bool"), ("v", b)]
+  | .prim (.int i) => Json.mkObj [("p", "int"), ("v", toJson i)]
+  | .prim (.str s) => Json.mkObj [("p", "str"), ("v", s)]
+  | .prim (.float s) => Json.mkObj [("p", "float"), ("src", s)]
+  | .obj id cls parent attrs =>
+    Json.mkObj [("cls", cls), ("id", toJson id), ("parent", optJson (fun (i : Nat) => toJson i) parent),
+      ("attrs", Json.arr (attrs.map fun (n, v) => Json.arr #[Json.str n, valueToJson v]).toArray)]
+  | .list vs => Json.arr (vs.map valueToJson).toArray
+
+def outcomeToJson : Tx.Outcome → Json
+  | .model v c03 => Json.mkObj [("ok", valueToJson v), ("c03", c03)]
+  | .syntaxError => Json.mkObj [("err", "syntax")]
+  | .semanticError .multAssign => Json.mkObj [("err", "semantic:Multiple assignments")]
+  | .semanticError _ => Json.mkObj [("err", "semantic:None")]
+  | .fuel => fuelOut
+  | .bad w => Json.mkObj [("bad", w)]
+
+def compileJson (g : Gram) : Json :=
+  match compile g with
+  | .ok c => Json.mkObj [("ok", compiledToJson c)]
+  | .error e => errToJson e
+
+def loadText (c : Compiled) (cfg : Config) (j : Json) : Option Json := do
+  let input ← getStr? j "input"
+  let toks ← (← getArr? j "toks").mapM parseRow
+  let groups ← (← getArr? j "groups").mapM asNat?
+  let g1 ← (← getArr? j "g1").mapM parseSpanRow
+  let fuel ← getNat? j "fuel"
+  pure (outcomeToJson (load c cfg input.toList.toArray toks groups g1 fuel))
 
 def handle1 (j : Json) : Json :=
   match getStr? j "op" with
   | some "compile" =>
     match (getObj? j "gram").bind parseGram with
     | none => badOp
-    | some g =>
+    | some g => compileJson g
+  | some "case" =>
+    let r : Option Json := do
+      let g ← (getObj? j "gram").bind parseGram
+      let cfg ← (getObj? j "cfg").bind parseConfig
+      let texts ← getArr? j "texts"
       match compile g with
-      | .ok c => Json.mkObj [("ok", compiledToJson c)]
-      | .error e => errToJson e
+      | .error e => pure (Json.mkObj [("compiled", errToJson e)])
+      | .ok c =>
+        let loads ← texts.mapM (loadText c cfg)
+        pure (Json.mkObj [("compiled", Json.mkObj [("ok", compiledToJson c)]), ("loads", Json.arr loads)])
+    r.getD badOp
   | _ => badOp
 
 def main : IO Unit := serve handle1
